@@ -28,6 +28,7 @@ import (
 	"filippo.io/age/xverif/props/c07"
 	"filippo.io/age/xverif/props/c08"
 	"filippo.io/age/xverif/props/c09"
+	"filippo.io/age/xverif/props/c16"
 	"golang.org/x/crypto/ssh"
 )
 
@@ -368,6 +369,7 @@ func Run(tier string) {
 		}
 	})
 	_ = skipped
+	c16.HostileForC14(run)
 	hookMu.Lock()
 	wd := worstDerive
 	hookMu.Unlock()
